@@ -82,6 +82,19 @@ META["C03"] = {
     "level_note": "trusts testing/synctest and the recording tracer; observers run only at scheduling points (handler bodies, queue hooks)",
 }
 
+META["C05"] = {
+    "budget": {"quick": 25, "thorough": 600},
+    "rule": "one run = generated schema with After/Require graphs (After arbitrary incl. cycles, Require acyclic) + 1..3 handler bindings drawn from {handler maps, maps behind a StatePrefix, reflected struct} + veto plan at every negotiation position + handler-issued mutations + a history of Add/Remove/Set/Toggle/CanAdd incl. Multi re-entry and auto mutations; every transition's recorded handler calls are checked per binding; non-trivial = at least one handler ran; distinct = distinct plans",
+    "components": {"real": MACHINE_REAL, "stub": []},
+    "assumptions": [
+        "an After/Require demand that is part of a cycle in After ∪ Require is unsatisfiable and never flagged",
+        "partially accepted auto mutations are exempt from the veto-stops clause (C07 owns them)",
+    ],
+    "probes": [],
+    "level_text": "seeded search over schemas, bindings, histories and veto positions; checks phase order Exit/Enter/self+state-state/[AnyEnter]/End/State/AnyState, negotiation handlers see the state before, final handlers the applied target, the first false is the last call and nothing is applied, finals exactly once per changed state per binding, After/Require order inside each phase list",
+    "level_note": "trusts the recording handlers (machine views read from inside the handler) and the recording tracer",
+}
+
 NOT_YET = "check not built yet in this session (planned, see DESIGN.md section 5)"
 NOT_APPLICABLE = {
     "C19": "no schedule, clock, fault or multi-party behaviour: a static well-formedness scan of schema literals plus an exhaustive breadth-first enumeration of reachable active sets, i.e. bounded model checking, not deterministic simulation (DESIGN.md section 6)",
